@@ -132,7 +132,8 @@ FIELDS = [
     dict(name="xf", kind="tag", dt="f", line=TAGLINE, version="gfa1", classes={
         "valid": [F("1.5"), S("3.25"), F("-2.5e10"), S("-1e-3")],
         "wrongtype": [J("[1.5]"), J('{"a": 1}')],
-        "wrongsyntax": [S("abc"), S("1.5.2"), S("1e"), S("")]}),
+        "wrongsyntax": [S("abc"), S("1.5.2"), S("1e"), S("")],
+        "outofrange": [F("nan"), F("inf"), F("-inf")]}),
     dict(name="xz", kind="tag", dt="Z", line=TAGLINE, version="gfa1", classes={
         "valid": [S("hello"), S("with space"), S("~!@")],
         "wrongtype": [I(5), J("[1, 2]"), J('{"a": 1}'), F("1.5")],
@@ -156,6 +157,18 @@ FIELDS = [
         "outofrange": [NA({"py": "symlist", "a": [[1, 32, 0]]}), NA({"py": "symlist", "a": [[-1, 31, -1]]}),
                        NA({"py": "symlist", "a": [[0, 0, -1], [1, 31, 0]]}), S("c,200"), S("C,-1"),
                        NA(J("[]"))]}),
+    # ---- tags that do not exist yet: the first Set creates them with the default datatype of the value
+    dict(name="nz", kind="newtag", dt="Z", line="S\tA\t*", version="gfa1", classes={
+        "valid": [S("hello"), S("with space"), S("~!@")],
+        "wrongsyntax": [S("a\tb"), S("a\nb"), S("\x01")]}),
+    dict(name="nf", kind="newtag", dt="f", line="S\tA\t*", version="gfa1", classes={
+        "valid": [F("1.5"), F("-2.5e10")],
+        "outofrange": [F("nan"), F("inf")]}),
+    dict(name="nb", kind="newtag", dt="B", line="S\tA\t*", version="gfa1", classes={
+        "valid": [NA(J("[1, 2, 3]")), J("[1, -1]"), NA(J("[1.5, 2.5]"))],
+        "wrongtype": [NA(J("[1, 2.5]"))],
+        "outofrange": [NA({"py": "symlist", "a": [[1, 32, 0]]}), NA(J("[]")),
+                       {"py": "symlist", "a": [[-1, 31, -1]]}]}),
     # ---- positional fields, GFA1
     dict(name="name", kind="pos", dt="segment_name_gfa1", line="S\tA\t*", version="gfa1", classes={
         "valid": [S("B"), S("seg1"), S("x+y")],
@@ -367,7 +380,8 @@ def run_program(job):
             raise MachineryError("unknown call code " + code)
         evs.append(ev)
         vals.append([val, exc])
-    return {"id": cid, "lvl": lvl, "f": key, "dt": fd["dt"], "ev": evs}, vals
+    return {"id": cid, "lvl": lvl, "f": key, "dt": fd["dt"],
+            "init": "absent" if fd["kind"] == "newtag" else "valid", "ev": evs}, vals
 
 
 def validate_cases(kind, cases, name, nshards=None):
